@@ -170,6 +170,7 @@ type c13Thread struct {
 	fault   bool // pending fault for the underlying fake cache (GetInformer)
 	faults  int  // number of faults injected into this thread
 	before  []string
+	seen    bool // afterDone ran
 }
 
 type c13Reg struct {
@@ -215,6 +216,7 @@ type c13Run struct {
 	events []c13Event
 	branch []int // number of eligible threads at each round (for exhaustive enumeration)
 	stack  []byte
+	lastBlocked string
 }
 
 func (r *c13Run) mon(sig, why string) {
@@ -591,19 +593,22 @@ func (r *c13Run) settle() {
 			return
 		}
 		if spin%32 == 31 {
+			// `run` was read before the dump: a thread that finished or parked in between is
+			// simply not reported as blocked, and we go round again
 			for {
 				n := runtime.Stack(r.stack, true)
 				if n < len(r.stack) {
 					blocked := c13EngineBlocked(r.stack[:n])
 					all := true
 					r.mu.Lock()
-					for _, t := range r.th {
-						if t.state == c13Running && !(t.goid != 0 && blocked[t.goid]) {
+					for _, t := range run {
+						if !(t.goid != 0 && blocked[t.goid]) {
 							all = false
 						}
 					}
 					r.mu.Unlock()
 					if all {
+						r.lastBlocked = string(r.stack[:n])
 						return
 					}
 					break
@@ -673,7 +678,17 @@ func (r *c13Run) run(script []int, maxRounds int) (deadlock bool) {
 		}
 		el := r.eligible()
 		if len(el) == 0 || round >= maxRounds {
-			r.mon("C13:deadlock", fmt.Sprintf("no thread can be released after %d rounds; states %v", round, r.status()))
+			n := runtime.Stack(r.stack, true)
+			why := fmt.Sprintf("no thread can be released after %d rounds; states %v", round, r.status())
+			for _, blk := range strings.Split(string(r.stack[:n]), "\n\n") {
+				for _, t := range r.th {
+					if t.state == c13Running && strings.HasPrefix(blk, "goroutine "+strconv.FormatUint(t.goid, 10)+" ") {
+						why += "\n" + blk
+					}
+				}
+			}
+			why += "\n--- dump at the last blocked verdict\n" + r.lastBlocked
+			r.mon("C13:deadlock", why)
 			return true
 		}
 		v := 0
@@ -733,8 +748,11 @@ func (r *c13Run) run(script []int, maxRounds int) (deadlock bool) {
 			}
 		}
 		r.mu.Unlock()
-		if t.state == c13Done {
-			r.afterDone(t, ghostRunning)
+		for _, u := range r.th {
+			if u.state == c13Done && !u.seen {
+				u.seen = true
+				r.afterDone(u, ghostRunning)
+			}
 		}
 	}
 }
